@@ -61,6 +61,13 @@ class Observer:
             self.restarting = False
         if getattr(self, "restarting", False):
             return
+        if op == "define" and ans.startswith("ok"):
+            # "its named resources free" is about the resources of the current definition
+            for b in koracles.declaration_recorded(koracles.Snapshot(run.wf), line):
+                if b.startswith("C12"):
+                    ctx.finding(Finding(PID, "declared-resources-not-stored", f"after '{kcorr.decode_line(line)[:100]}': {b}",
+                                        {"violation": b, "requests": [kcorr.decode_line(x) for x in run.lines][-15:],
+                                         "protocol_lines": list(run.lines)}))
         if op == "pop" and self.expected is not None and ans.startswith("ok"):
             elig, _ = self.expected
             choice = ans.split(" ")[1]
